@@ -124,14 +124,37 @@ def sysStep (s : Sys) (ws : List String) : Sys × String :=
         s!"delivered={showFrames s.peer.rxq} pending={s.peer.txq.length} peer_safelink={if s.peer.safelink then 1 else 0}")
   | _ => (s, "bad-op")
 
+def slotNum? : String → Option Nat
+  | "A" => some 0 | "B" => some 1 | "C" => some 2 | "D" => some 3 | _ => none
+
+def slotName (n : Nat) : String := (["A", "B", "C", "D"].getD n "?")
+
+/-- the instance table of the shared radio: which live links get the answers to their own transmissions -/
+def shStep (l : Links) (ws : List String) : Links × String :=
+  match ws with
+  | ["reset"] => (Links.init, "ok")
+  | ["open", q] => match slotNum? q with
+    | some q => (l.step (.open q), "ok")
+    | none => (l, "bad-op")
+  | ["close", q] => match slotNum? q with
+    | some q => (l.step (.close q), "ok")
+    | none => (l, "bad-op")
+  | ["run"] =>
+    let ok := (l.live.filter fun p => l.sh.route p.2 == some p.1).map (·.1)
+    let names := (ok.toArray.qsort (· < ·)).toList.map slotName
+    (l, "ok live=" ++ (if names.isEmpty then "-" else ",".intercalate names))
+  | _ => (l, "bad-op")
+
 structure DState where
   h : Host
   s : Sys
+  l : Links
 
 def step (d : DState) (ws : List String) : DState × String :=
   match ws with
   | "sys" :: rest => let (s', r) := sysStep d.s rest; ({ d with s := s' }, r)
+  | "sh" :: rest => let (l', r) := shStep d.l rest; ({ d with l := l' }, r)
   | _ => let (h', r) := hostStep d.h ws; ({ d with h := h' }, r)
 
 def main : IO Unit :=
-  runProto { h := Host.init Gen.C01.nrOfRetries, s := Sys.init Gen.C01.nrOfRetries Peer.init } step
+  runProto { h := Host.init Gen.C01.nrOfRetries, s := Sys.init Gen.C01.nrOfRetries Peer.init, l := Links.init } step
